@@ -1,6 +1,103 @@
-/- C14 — statements are being added as the proofs land (see DESIGN.md §6). -/
+/-
+  C14 — both layouts of the generated module are equivalent.
+  The generator emits the body of `choose_experiment_variant` at indentation depth 1
+  (function layout) or depth 2 (class layout).  Statements only; proofs in
+  `Pyab/Proofs/Lines.lean` and `Pyab/Proofs/Routing.lean`.
+-/
+import Pyab.Properties.C02
+import Pyab.Proofs.Lines
 namespace Pyab.Properties
+open Pyab Pyab.Spec
 
-theorem C14_placeholder : True := trivial
+/-! ### concrete witnesses used by the `example`s (non-vacuity of the hypotheses) -/
+
+/-- `if a == 1 { return 'x' weighted 1 } else { return 'y' weighted 1 }` -/
+def C14.exCond : Cond :=
+  .ifte (.cmp (.ident "a") .eq (.int 1)) (.ret [⟨.str "x", .i 1⟩]) (.else_ (.ret [⟨.str "y", .i 1⟩]))
+
+/-- the lines emitted for `C14.exCond` with the body at depth `d` -/
+def C14.exLines (d : Nat) : List ILine :=
+  [(d, .ifL (.cmp (.name "a") "==" (.const (.int 1)))), (d + 1, .ret [.str "x"] [.i 1]),
+   (d, .elseL), (d + 1, .ret [.str "y"] [.i 1]), (d, .raiseU)]
+
+/-- a conditional whose emission fails in both layouts: the group definition is not a literal -/
+def C14.exBadCond : Cond := .ret [⟨.ident "g", .i 1⟩]
+
+/-- the generator in /repo emits `C14.exCond` in the depth-1 layout as `C14.exLines 1` -/
+theorem C14.exCond_layout1 : bodyLines Generated.genCfg 1 C14.exCond = .ok (C14.exLines 1) := by rfl
+/-- the generator in /repo emits `C14.exCond` in the depth-2 layout as `C14.exLines 2` -/
+theorem C14.exCond_layout2 : bodyLines Generated.genCfg 2 C14.exCond = .ok (C14.exLines 2) := by rfl
+/-- emitting `C14.exBadCond` in the depth-1 layout fails -/
+theorem C14.exBadCond_layout1 :
+    bodyLines Generated.genCfg 1 C14.exBadCond = .error (.other "group-definition-not-literal") := by rfl
+
+/-- **Layouts are equivalent.** For every conditional and every environment, executing the
+    body emitted at depth 1 and executing the body emitted at depth 2 give the same result:
+    the same population and weights handed to `deterministic_choice`, or the same error
+    (unroutable, or a comparison's TypeError). -/
+theorem C14_layouts_equivalent (cfg : GenCfg) (hc : CanonicalExpr cfg) (c : Cond) (env : Env)
+    (L1 L2 : List ILine) (h1 : bodyLines cfg 1 c = .ok L1) (h2 : bodyLines cfg 2 c = .ok L2) :
+    runLines env .exec L1 = runLines env .exec L2 := by
+  rw [C02_routing_correct cfg hc env c 1 L1 h1, C02_routing_correct cfg hc env c 2 L2 h2]
+
+/-- the hypotheses are met by the generator in /repo, a concrete conditional and its two
+    concrete layouts -/
+example : runLines [("a", .int 1)] .exec (C14.exLines 1) = runLines [("a", .int 1)] .exec (C14.exLines 2) :=
+  C14_layouts_equivalent Generated.genCfg C02_generator_canonical C14.exCond [("a", .int 1)]
+    (C14.exLines 1) (C14.exLines 2) C14.exCond_layout1 C14.exCond_layout2
+
+/-- **Layouts compile together.** The body can be emitted in the depth-1 layout exactly when
+    it can be emitted in the depth-2 layout. -/
+theorem C14_layouts_compile_together (cfg : GenCfg) (c : Cond) :
+    (∃ L1, bodyLines cfg 1 c = .ok L1) ↔ (∃ L2, bodyLines cfg 2 c = .ok L2) :=
+  Proofs.bodyLines_ok_iff_depth cfg c 1 2
+
+/-- left to right, from the concrete depth-1 layout -/
+example : ∃ L2, bodyLines Generated.genCfg 2 C14.exCond = .ok L2 :=
+  (C14_layouts_compile_together Generated.genCfg C14.exCond).mp ⟨C14.exLines 1, C14.exCond_layout1⟩
+
+/-- right to left, from the concrete depth-2 layout -/
+example : ∃ L1, bodyLines Generated.genCfg 1 C14.exCond = .ok L1 :=
+  (C14_layouts_compile_together Generated.genCfg C14.exCond).mpr ⟨C14.exLines 2, C14.exCond_layout2⟩
+
+/-- **Same lines modulo indentation.** At any two depths the emitted conditional consists of
+    the same lines in the same order (or fails with the same error); only the indentation
+    column differs. -/
+theorem C14_same_lines_modulo_indent (cfg : GenCfg) (c : Cond) (d d' : Nat) :
+    (linesCond cfg d c).map (·.map Prod.snd) = (linesCond cfg d' c).map (·.map Prod.snd) :=
+  Proofs.linesCond_contents_depth_indep cfg c d d'
+
+/-- the concrete conditional at depths 1 and 2: the same four lines (the trailing raise is added by `bodyLines`) -/
+example : (linesCond Generated.genCfg 1 C14.exCond).map (·.map Prod.snd) =
+    .ok ((C14.exLines 2).dropLast.map Prod.snd) := by
+  rw [C14_same_lines_modulo_indent Generated.genCfg C14.exCond 1 2]; rfl
+
+/-- **Layouts fail together.** Emitting the body raises an error in the depth-1 layout
+    exactly when it raises the same error in the depth-2 layout. -/
+theorem C14_layouts_same_error (cfg : GenCfg) (c : Cond) (err : Err) :
+    bodyLines cfg 1 c = .error err ↔ bodyLines cfg 2 c = .error err :=
+  Proofs.bodyLines_error_depth_indep cfg c 1 2 err
+
+/-- a concrete failing conditional: the depth-1 error is the depth-2 error -/
+example : bodyLines Generated.genCfg 2 C14.exBadCond = .error (.other "group-definition-not-literal") :=
+  (C14_layouts_same_error Generated.genCfg C14.exBadCond _).mp C14.exBadCond_layout1
+
+/-- **Both layouts are well indented.** Whatever the depth (in particular 1 and 2), the
+    emitted body passes the indentation rules `compile()` enforces: every `if`/`elif`/`else`
+    is followed by a line one level deeper, no other line goes deeper than its predecessor. -/
+theorem C14_both_well_indented (cfg : GenCfg) (c : Cond) (d : Nat) (L : List ILine)
+    (h : bodyLines cfg d c = .ok L) : wellIndented L = true :=
+  Proofs.bodyLines_wellIndented cfg c d L h
+
+/-- the two concrete layouts -/
+example : wellIndented (C14.exLines 1) = true :=
+  C14_both_well_indented Generated.genCfg C14.exCond 1 _ C14.exCond_layout1
+example : wellIndented (C14.exLines 2) = true :=
+  C14_both_well_indented Generated.genCfg C14.exCond 2 _ C14.exCond_layout2
+
+/-- the indentation check is not trivially true: a body whose `if` is followed by a line at
+    the same depth is rejected -/
+example : wellIndented [(1, .ifL (.cmp (.name "a") "==" (.const (.int 1)))), (1, .raiseU)] = false := by
+  rfl
 
 end Pyab.Properties
